@@ -479,7 +479,12 @@ def subcases(rel, signs):
             if all(c_ in (POS, NONNEG, ZERO) for c_ in mcls) or all(c_ in (NEG, NONPOS, ZERO) for c_ in mcls):
                 done = True
                 if not any(c_ in (POS, NEG) for c_ in mcls):
-                    sub0 = {mn[0][0]: P.const(0) for mn, co in d.t.items() if len(mn) == 1 and mn[0][1] == 1 and _IDENT.match(mn[0][0])}
+                    sub0 = {}
+                    for mn, co in d.t.items():
+                        # a vanishing monomial: the one factor that is not known to be non-zero vanishes
+                        cands_ = [sy for sy, e_ in mn if signs.get(sy, ANY) not in (POS, NEG, NONZERO)]
+                        if len(cands_) == 1 and _IDENT.match(cands_[0]) and cands_[0] not in ("base", "out"):
+                            sub0[cands_[0]] = P.const(0)
                     if sub0 and all(meet(signs.get(sy, ANY), ZERO) is not None for sy in sub0):
                         s2 = {k_: v_ for k_, v_ in signs.items() if k_ != "__facts"}
                         for q_, c_ in (signs.get("__facts") or []):
